@@ -24,6 +24,11 @@ the real lines):
       same module whose body is a single `return E` (no nested scope in E), called
       with call-free positional arguments, is replaced by E with the parameters
       substituted -- `_index_of(epoch, t)` reads as `np.argwhere(epoch == t)[0, 0]`.
+  N7  calls of helpers the rules have never read (same-module functions / `self.` methods that are
+      not in known_functions.json) are replaced by the helper's body, locals renamed, early returns
+      turned into if / else -- when the call is the whole value of its statement.
+  N8  plain aliases:  a = b  (both bound once)  ->  every use of a reads b.
+  N9  f(a, *t) with t bound once to a tuple literal of stable elements -> f(a, e1, e2, ...).
   N3  keyword arguments that name the next positional parameter of a function
       of the repository become positional  (done by Repo once all modules are
       parsed).
@@ -318,19 +323,140 @@ def _is_head(n):
         and isinstance(n.slice.upper.operand, ast.Constant) and n.slice.upper.operand.value == 1
 
 
-def normalize_module(tree):
-    """N1 + N2 + N4 + N5 in place; returns counters."""
+def propagate_aliases(fnode):
+    """N8: `a = b` (plain names, each bound exactly once in the function, `a` not a parameter) --
+    every use of `a` reads `b`, the assignment disappears.  Also elementwise for `(a, c) = (b, d)`."""
+    total = 0
+    for _round in range(6):
+        own, nested = _own_nodes(fnode)
+        if any(isinstance(n, (ast.Global, ast.Nonlocal)) for n in own):
+            return total
+        stores = {}
+        for n in own:
+            if isinstance(n, ast.Name) and isinstance(n.ctx, (ast.Store, ast.Del)):
+                stores.setdefault(n.id, []).append(n)
+            elif isinstance(n, ast.ExceptHandler) and n.name:
+                stores.setdefault(n.name, []).append(n)
+            elif isinstance(n, ast.alias):
+                stores.setdefault((n.asname or n.name).split(".")[0], []).append(n)
+        nested_stores = set()
+        for sc in nested:
+            for x in ast.walk(sc):
+                if isinstance(x, ast.Name) and isinstance(x.ctx, ast.Store):
+                    nested_stores.add(x.id)
+                elif isinstance(x, ast.arg):
+                    nested_stores.add(x.arg)
+        params = {a.arg for a in fnode.args.posonlyargs + fnode.args.args + fnode.args.kwonlyargs}
+        if fnode.args.vararg:
+            params.add(fnode.args.vararg.arg)
+        if fnode.args.kwarg:
+            params.add(fnode.args.kwarg.arg)
+
+        def once(nm):
+            return len(stores.get(nm, [])) == 1 and nm not in params and nm not in nested_stores
+
+        def source_ok(nm):
+            # the source may be a parameter (never rebound) or a name bound once
+            return nm not in nested_stores and ((nm in params and not stores.get(nm)) or (nm not in params and len(stores.get(nm, [])) == 1))
+
+        done = False
+        for block in _blocks(fnode):
+            for i, st in enumerate(block):
+                if not (isinstance(st, ast.Assign) and len(st.targets) == 1):
+                    continue
+                tg, val = st.targets[0], st.value
+                pairs = None
+                if isinstance(tg, ast.Name) and isinstance(val, ast.Name):
+                    pairs = [(tg.id, val.id)]
+                elif isinstance(tg, (ast.Tuple, ast.List)) and isinstance(val, (ast.Tuple, ast.List)) and len(tg.elts) == len(val.elts) \
+                        and all(isinstance(e, ast.Name) for e in list(tg.elts) + list(val.elts)):
+                    pairs = [(t.id, v.id) for t, v in zip(tg.elts, val.elts)]
+                    if len({a for a, _ in pairs}) != len(pairs) or {a for a, _ in pairs} & {b for _, b in pairs}:
+                        pairs = None
+                if not pairs or not all(once(a) and source_ok(b) and a != b for a, b in pairs):
+                    continue
+                ren = dict(pairs)
+                for x in ast.walk(fnode):
+                    if isinstance(x, ast.Name) and isinstance(x.ctx, ast.Load) and x.id in ren:
+                        x.id = ren[x.id]
+                del block[i]
+                if not block:
+                    block.append(ast.Pass())
+                total += 1
+                done = True
+                break
+            if done:
+                break
+        if not done:
+            return total
+    return total
+
+
+def expand_star_tuples(fnode):
+    """N9: f(a, *t) with t bound once to a tuple / list literal of stable elements -> f(a, e1, e2, ...)."""
+    own, nested = _own_nodes(fnode)
+    stores, tdef = {}, {}
+    attr_stores = set()
+    for n in own:
+        if isinstance(n, ast.Name) and isinstance(n.ctx, (ast.Store, ast.Del)):
+            stores[n.id] = stores.get(n.id, 0) + 1
+        if isinstance(n, ast.Attribute) and isinstance(n.ctx, (ast.Store, ast.Del)):
+            attr_stores.add(ast.unparse(n))
+        if isinstance(n, ast.Assign) and len(n.targets) == 1 and isinstance(n.targets[0], ast.Name) and isinstance(n.value, (ast.Tuple, ast.List)):
+            tdef[n.targets[0].id] = n.value
+    params = {a.arg for a in fnode.args.posonlyargs + fnode.args.args + fnode.args.kwonlyargs}
+
+    def stable(e):
+        if isinstance(e, ast.Constant):
+            return True
+        if isinstance(e, ast.Name):
+            return (e.id in params and not stores.get(e.id)) or stores.get(e.id) == 1
+        if isinstance(e, ast.Attribute):
+            return ast.unparse(e) not in attr_stores and stable(e.value)
+        return False
+
+    n = 0
+    for c in own:
+        if isinstance(c, ast.Call) and any(isinstance(a, ast.Starred) for a in c.args):
+            new = []
+            ok = True
+            for a in c.args:
+                if isinstance(a, ast.Starred):
+                    t = a.value
+                    if isinstance(t, ast.Name) and stores.get(t.id) == 1 and t.id in tdef and not isinstance(tdef[t.id], ast.List) \
+                            and all(stable(e) for e in tdef[t.id].elts):
+                        new.extend(_clone(e) for e in tdef[t.id].elts)
+                    else:
+                        ok = False
+                        break
+                else:
+                    new.append(a)
+            if ok:
+                c.args = new
+                n += 1
+    return n
+
+
+def normalize_module(tree, modname=None):
+    """N1 + N2 + N4 + N5 + N6 + N7 in place; returns counters."""
     if OFF:
         return {"inlined": 0, "tests": 0}
     literals_right(tree)
     index_forms(tree)
+    n_h = inline_unknown_helpers(tree, modname) if modname else 0
     unfold_expression_functions(tree)
     n_inl = 0
     for node in ast.walk(tree):
         if isinstance(node, (ast.FunctionDef, ast.AsyncFunctionDef)):
-            n_inl += inline_temporaries(node)
+            expand_star_tuples(node)
+            for _k in range(3):
+                a_ = inline_temporaries(node)
+                b_ = propagate_aliases(node)
+                n_inl += a_ + b_
+                if not (a_ or b_):
+                    break
     n_t = normalize_tests(tree)
-    return {"inlined": n_inl, "tests": n_t}
+    return {"inlined": n_inl, "tests": n_t, "helpers": n_h}
 
 
 # ------------------------------------------------------------------ N3
@@ -436,3 +562,247 @@ def unfold_expression_functions(tree):
                             setattr(parent, fld, new)
                         n += 1
     return n
+
+
+# ------------------------------------------------------------------ N7
+def _known():
+    import json
+
+    path = os.path.join(os.path.dirname(os.path.abspath(__file__)), "known_functions.json")
+    try:
+        with open(path) as fh:
+            return set(json.load(fh)["functions"])
+    except OSError:
+        return None
+
+
+def _contains_return(node):
+    return any(isinstance(x, ast.Return) for x in ast.walk(node))
+
+
+def _always_returns(stmts):
+    if not stmts:
+        return False
+    last = stmts[-1]
+    if isinstance(last, (ast.Return, ast.Raise)):
+        return True
+    if isinstance(last, ast.If):
+        return _always_returns(last.body) and _always_returns(last.orelse)
+    return False
+
+
+class _NoInline(Exception):
+    pass
+
+
+def _single_exit(stmts, result):
+    """Rewrite a statement list whose `return`s sit at tail positions of if / else branches into one
+    without `return`: the value is assigned to `result` instead."""
+    out = []
+    for i, st in enumerate(stmts):
+        if isinstance(st, ast.Return):
+            val = st.value if st.value is not None else ast.Constant(value=None)
+            out.append(ast.copy_location(ast.Assign(targets=[ast.Name(id=result, ctx=ast.Store())], value=val), st))
+            return out
+        if isinstance(st, ast.If) and _contains_return(st):
+            rest = stmts[i + 1:]
+            body = _single_exit(list(st.body) + ([] if _always_returns(st.body) else [_clone(x) for x in rest]), result)
+            orelse = _single_exit(list(st.orelse) + ([] if _always_returns(st.orelse) else [_clone(x) for x in rest]), result)
+            new = ast.copy_location(ast.If(test=st.test, body=body or [ast.Pass()], orelse=orelse), st)
+            out.append(new)
+            return out
+        if _contains_return(st):
+            raise _NoInline("return inside a loop / try / with")
+        out.append(st)
+    return out
+
+
+def _inlinable(fdef):
+    if fdef.decorator_list or fdef.args.vararg or fdef.args.kwarg or fdef.args.kwonlyargs or fdef.args.posonlyargs:
+        return False
+    for x in ast.walk(fdef):
+        if x is fdef:
+            continue
+        if isinstance(x, (ast.FunctionDef, ast.AsyncFunctionDef, ast.ClassDef, ast.Yield, ast.YieldFrom, ast.Await, ast.Global, ast.Nonlocal)):
+            return False
+        if isinstance(x, ast.Call) and isinstance(x.func, ast.Name) and x.func.id in (fdef.name, "locals", "vars", "eval", "exec"):
+            return False
+    return True
+
+
+def _simple_arg(a):
+    if isinstance(a, (ast.Name, ast.Constant)):
+        return True
+    if isinstance(a, ast.Attribute):
+        return _simple_arg(a.value)
+    if isinstance(a, ast.UnaryOp) and isinstance(a.operand, ast.Constant):
+        return True
+    return False
+
+
+_inline_counter = [0]
+
+
+def _instantiate(fdef, args, defaults_from):
+    """(statements, result expression or None) of one inlined call."""
+    _inline_counter[0] += 1
+    pre = "_h%d_" % _inline_counter[0]
+    params = [a.arg for a in fdef.args.args]
+    body = [b for b in fdef.body if not (isinstance(b, ast.Expr) and isinstance(b.value, ast.Constant) and isinstance(b.value.value, str))]
+    body = [_clone(b) for b in body]
+    stored = set(params)
+    for b in body:
+        for x in ast.walk(b):
+            if isinstance(x, ast.Name) and isinstance(x.ctx, (ast.Store, ast.Del)):
+                stored.add(x.id)
+            elif isinstance(x, ast.ExceptHandler) and x.name:
+                stored.add(x.name)
+            elif isinstance(x, ast.arg):
+                stored.add(x.arg)
+    reassigned = set()
+    for b in body:
+        for x in ast.walk(b):
+            if isinstance(x, ast.Name) and isinstance(x.ctx, (ast.Store, ast.Del)) and x.id in params:
+                reassigned.add(x.id)
+            if isinstance(x, ast.arg) and x.arg in params:
+                reassigned.add(x.arg)
+    result = pre + "ret"
+    has_value = any(isinstance(x, ast.Return) and x.value is not None for b in body for x in ast.walk(b))
+    body = _single_exit(body, result)
+    # bind parameters
+    bound = dict(zip(params, args))
+    nd = len(fdef.args.defaults)
+    for k, d in enumerate(fdef.args.defaults):
+        p = params[len(params) - nd + k]
+        if p not in bound:
+            bound[p] = _clone(d)
+    if set(bound) != set(params):
+        raise _NoInline("arguments do not cover the parameters")
+    subst, pre_stmts = {}, []
+    for p in params:
+        a = bound[p]
+        if _simple_arg(a) and p not in reassigned:
+            subst[p] = a
+        else:
+            pre_stmts.append(ast.Assign(targets=[ast.Name(id=pre + p, ctx=ast.Store())], value=a))
+    rename = {n: pre + n for n in stored if n not in subst}
+
+    class R(ast.NodeTransformer):
+        def visit_Name(self, node):
+            if node.id in subst and isinstance(node.ctx, ast.Load):
+                return _clone(subst[node.id])
+            if node.id in rename:
+                node.id = rename[node.id]
+            return node
+
+        def visit_arg(self, node):
+            if node.arg in rename:
+                node.arg = rename[node.arg]
+            return node
+
+        def visit_ExceptHandler(self, node):
+            if node.name in rename:
+                node.name = rename[node.name]
+            self.generic_visit(node)
+            return node
+
+    body = [R().visit(b) for b in body]
+    # arguments that are evaluated now (not substituted) keep their evaluation order: they come first
+    return pre_stmts + body, (ast.Name(id=result, ctx=ast.Load()) if has_value else None)
+
+
+def inline_unknown_helpers(tree, modname):
+    """N7: calls of same-module functions (or `self.` methods of the same class) that are NOT among the
+    functions the rules were written against are replaced by the callee's body, when the call is the
+    whole value of its statement (so hoisting the body keeps the evaluation order)."""
+    if OFF:
+        return 0
+    known = _known()
+    if known is None:
+        return 0
+    cands = {}
+    for st in tree.body:
+        if isinstance(st, ast.FunctionDef) and "%s.%s" % (modname, st.name) not in known and _inlinable(st):
+            cands[("", st.name)] = st
+        elif isinstance(st, ast.ClassDef):
+            for m in st.body:
+                if isinstance(m, ast.FunctionDef) and "%s.%s.%s" % (modname, st.name, m.name) not in known and _inlinable(m) \
+                        and m.args.args and m.args.args[0].arg == "self":
+                    cands[(st.name, m.name)] = m
+    if not cands:
+        return 0
+    total = 0
+
+    def callee_of(call, cls):
+        f = call.func
+        if isinstance(f, ast.Name) and ("", f.id) in cands:
+            return cands[("", f.id)], list(call.args)
+        if isinstance(f, ast.Attribute) and isinstance(f.value, ast.Name) and f.value.id == "self" and cls and (cls, f.attr) in cands:
+            return cands[(cls, f.attr)], [ast.Name(id="self", ctx=ast.Load())] + list(call.args)
+        return None, None
+
+    def owners():
+        for st in tree.body:
+            if isinstance(st, ast.FunctionDef):
+                yield "", st
+            elif isinstance(st, ast.ClassDef):
+                for m in st.body:
+                    if isinstance(m, ast.FunctionDef):
+                        yield st.name, m
+
+    for _round in range(3):
+        changed = False
+        for cls, fn in owners():
+            local_stores = {x.id for x in ast.walk(fn) if isinstance(x, ast.Name) and isinstance(x.ctx, ast.Store)} | {a.arg for a in fn.args.args}
+            for block in list(_blocks(fn)):
+                i = 0
+                while i < len(block):
+                    st = block[i]
+                    call = None
+                    if isinstance(st, (ast.Assign, ast.AugAssign, ast.Expr, ast.Return)) and isinstance(getattr(st, "value", None), ast.Call):
+                        call = st.value
+                        where = "value"
+                    elif isinstance(st, ast.For) and isinstance(st.iter, ast.Call):
+                        call = st.iter
+                        where = "iter"
+                    if call is None or call.keywords or any(isinstance(a, ast.Starred) for a in call.args):
+                        i += 1
+                        continue
+                    fdef, args = callee_of(call, cls)
+                    if fdef is None or fdef is fn or (isinstance(call.func, ast.Name) and call.func.id in local_stores):
+                        i += 1
+                        continue
+                    if isinstance(st, ast.AugAssign):
+                        i += 1
+                        continue          # target is read before the call: hoisting would reorder
+                    # free names of the helper must mean the same at the call site
+                    free = {x.id for x in ast.walk(fdef) if isinstance(x, ast.Name)} - {a.arg for a in fdef.args.args} \
+                        - {x.id for x in ast.walk(fdef) if isinstance(x, ast.Name) and isinstance(x.ctx, ast.Store)}
+                    if free & local_stores:
+                        i += 1
+                        continue
+                    try:
+                        stmts, res = _instantiate(fdef, args, None)
+                    except _NoInline:
+                        i += 1
+                        continue
+                    if where == "value":
+                        if isinstance(st, ast.Expr):
+                            block[i:i + 1] = stmts or [ast.Pass()]
+                        else:
+                            st.value = res if res is not None else ast.Constant(value=None)
+                            block[i:i] = stmts
+                    else:
+                        st.iter = res if res is not None else ast.Constant(value=None)
+                        block[i:i] = stmts
+                    for s_ in stmts:
+                        ast.fix_missing_locations(s_) if not hasattr(s_, "lineno") else None
+                        for sub in ast.walk(s_):
+                            if not hasattr(sub, "lineno") and isinstance(sub, (ast.expr, ast.stmt)):
+                                ast.copy_location(sub, st)
+                    total += 1
+                    changed = True
+                    i += len(stmts) + 1
+        if not changed:
+            break
+    return total
